@@ -34,6 +34,7 @@ func c01(c *Ctx) {
 	c16windowAs(c, "C01.R7")
 	c01registry(c)
 	c01guarded(c)
+	c01status(c)
 }
 
 func paramByType(f *ssa.Function, ts string) *ssa.Parameter { return paramOfType(f, ts) }
